@@ -172,7 +172,7 @@ func (t *gnmiTarget) Set(ctx context.Context, source TargetSource) (*sdcpb.SetDa
 		if err != nil {
 			return nil, err
 		}
-		if jsonData != nil {
+		if !nothingToUpdate(jsonData) {
 			jsonBytes, err := json.Marshal(jsonData)
 			if err != nil {
 				return nil, err
@@ -190,7 +190,7 @@ func (t *gnmiTarget) Set(ctx context.Context, source TargetSource) (*sdcpb.SetDa
 		if err != nil {
 			return nil, err
 		}
-		if jsonData != nil {
+		if !nothingToUpdate(jsonData) {
 			jsonBytes, err := json.Marshal(jsonData)
 			if err != nil {
 				return nil, err
@@ -244,6 +244,16 @@ func (t *gnmiTarget) Set(ctx context.Context, source TargetSource) (*sdcpb.SetDa
 		})
 	}
 	return schemaSetRsp, nil
+}
+
+// nothingToUpdate reports whether the rendered JSON carries no value at all:
+// the tree renders "nothing new or updated" as an empty object.
+func nothingToUpdate(jsonData any) bool {
+	if jsonData == nil {
+		return true
+	}
+	m, isObject := jsonData.(map[string]any)
+	return isObject && len(m) == 0
 }
 
 func (t *gnmiTarget) Status() *TargetStatus {
